@@ -129,19 +129,13 @@ int parse_instruction_tms9900(AsmContext *asm_context, char *instr)
       }
         else
       {
-        // FIXME - Ugly fix. The real problem is in eval_expression.
-        int neg = 1;
-        token_type = tokens_get(asm_context, token, TOKENLEN);
-        if (IS_TOKEN(token,'-')) { neg = -1; }
-        else { tokens_push(asm_context, token, token_type); }
-
+        // eval_expression() takes a leading - itself (negating the whole
+        // expression here made @-5+3 the address -8).
         if (eval_expression(asm_context, &n) != 0)
         {
           print_error_illegal_expression(asm_context, instr);
           return -1;
         }
-
-        n = n * neg;
 
         if (n < -32768 || n > 65535)
         {
